@@ -150,6 +150,13 @@ func matchComp(_ Context, doc bsonkit.Doc, op, path string, v interface{}) error
 		// compare field with value
 		res := bsonkit.Compare(field, v)
 
+		// NaN is equal to NaN but otherwise always compares false
+		if comp && (isNaN(field) || isNaN(v)) && !(isNaN(field) && isNaN(v)) {
+			return ErrNotMatched
+		} else if comp && isNaN(field) && (op == "$gt" || op == "$lt") {
+			return ErrNotMatched
+		}
+
 		// check operator
 		var ok bool
 		switch op {
@@ -172,6 +179,17 @@ func matchComp(_ Context, doc bsonkit.Doc, op, path string, v interface{}) error
 
 		return nil
 	})
+}
+
+func isNaN(v interface{}) bool {
+	switch n := v.(type) {
+	case float64:
+		return math.IsNaN(n)
+	case primitive.Decimal128:
+		return n.IsNaN()
+	}
+
+	return false
 }
 
 func matchNot(ctx Context, doc bsonkit.Doc, name, path string, v interface{}) error {
